@@ -144,6 +144,17 @@ func cmdCheck(args []string) int {
 			overlay[filepath.Join(*repo, ps.Dir, "zz_verif_"+filepath.Base(f))] = b
 		}
 	}
+	// development aid: layer mutated source files over the tree (never used by registered commands)
+	for _, m := range strings.Split(os.Getenv("GOSMT_MUTANT"), ",") {
+		if kv := strings.SplitN(m, "=", 2); len(kv) == 2 {
+			b, err := os.ReadFile(kv[1])
+			if err != nil {
+				fmt.Fprintln(os.Stderr, "error:", err)
+				return 2
+			}
+			overlay[filepath.Join(*repo, kv[0])] = b
+		}
+	}
 	origPath := os.Getenv("PATH")
 	os.Setenv("PATH", "/opt/veriftools/go1.26.8/bin:"+origPath)
 	env := append(os.Environ(), "GOTOOLCHAIN=local", "GOFLAGS=-mod=mod", "GOPROXY=off")
